@@ -23,16 +23,16 @@ FACTOR_CLASSES = {"process": ["random", "platform"], "clock": ["time"], "hashsee
                   "location": ["absPath"], "process-history": PROC_CLASSES}
 CFG = common.VERIF / "corpus" / "C07" / "config"
 OPTSETS = {
-    "c": [("default", []), ("cfg-option-types", ["--configuration", CFG / "option_types.yaml"]), ("cfg-option-scalars", ["--configuration", CFG / "option_scalars.yaml"]), ("asserts+pp", ["--enable-serialization-asserts", "--enable-override-variable-array-capacity",
+    "c": [("default", []), ("cfg-option-lists", ["--configuration", CFG / "option_lists.yaml"]), ("cfg-option-types", ["--configuration", CFG / "option_types.yaml"]), ("cfg-option-scalars", ["--configuration", CFG / "option_scalars.yaml"]), ("asserts+pp", ["--enable-serialization-asserts", "--enable-override-variable-array-capacity",
                                           "--pp-max-emptylines", "2", "--pp-trim-trailing-whitespace"]),
           ("omit-support+be", ["--omit-serialization-support", "--target-endianness", "big"]),
           ("nofloat-c11", ["--omit-float-serialization-support", "--language-standard", "c11"])],
-    "cpp": [("default", []), ("cfg-option-types", ["--configuration", CFG / "option_types.yaml"]), ("cfg-option-scalars", ["--configuration", CFG / "option_scalars.yaml"]), ("c++17-pmr+asserts", ["--language-standard", "c++17-pmr", "--enable-serialization-asserts"]),
+    "cpp": [("default", []), ("cfg-option-lists", ["--configuration", CFG / "option_lists.yaml"]), ("cfg-option-types", ["--configuration", CFG / "option_types.yaml"]), ("cfg-option-scalars", ["--configuration", CFG / "option_scalars.yaml"]), ("c++17-pmr+asserts", ["--language-standard", "c++17-pmr", "--enable-serialization-asserts"]),
             ("c++20+pp", ["--language-standard", "c++20", "--pp-max-emptylines", "1", "--pp-trim-trailing-whitespace"]),
             ("omit-support", ["--omit-serialization-support"])],
-    "py": [("default", []), ("cfg-option-types", ["--configuration", CFG / "option_types.yaml"]), ("pp", ["--pp-max-emptylines", "2", "--pp-trim-trailing-whitespace"]),
+    "py": [("default", []), ("cfg-option-lists", ["--configuration", CFG / "option_lists.yaml"]), ("cfg-option-types", ["--configuration", CFG / "option_types.yaml"]), ("pp", ["--pp-max-emptylines", "2", "--pp-trim-trailing-whitespace"]),
            ("ext", ["--output-extension", ".pyx"])],
-    "html": [("default", []), ("cfg-option-types", ["--configuration", CFG / "option_types.yaml"]), ("pp", ["--pp-max-emptylines", "1", "--pp-trim-trailing-whitespace"]),
+    "html": [("default", []), ("cfg-option-lists", ["--configuration", CFG / "option_lists.yaml"]), ("cfg-option-types", ["--configuration", CFG / "option_types.yaml"]), ("pp", ["--pp-max-emptylines", "1", "--pp-trim-trailing-whitespace"]),
              ("ext", ["--output-extension", ".htm"])],
 }
 B85_LINE = re.compile(r"^\s*'[0-9A-Za-z!#$%&()*+\-;<=>?@^_`{|}~]+'\)?\s*$")
@@ -208,7 +208,7 @@ class Model:
         return bool(why), why
 
 
-def run_histories(ctx, model):
+def run_histories(ctx, model, py_pickle_key=None):
     """Histories over one interpreter / one output directory with edits and option changes between the runs (paired_runs.history_stream):
     the final run of every history against the same run in a fresh interpreter into a fresh directory."""
     base = common.VERIF / "corpus" / "C07" / "dsdl"
@@ -232,6 +232,11 @@ def run_histories(ctx, model):
             where, d = where_of_diff(f["lang"], pathlib.Path(f["fresh_out"]) / rel, pathlib.Path(f["final_out"]) / rel)
             rp = {"scenario": f["scenario"], "lang": f["lang"], "runs_in_one_interpreter": f["runs"], "file": rel, "n_differing_files": f["n"],
                   "first_differing_line_fresh_vs_history": d, "sha256": f["sha256"], "input": "corpus:vnet"}
+            if f["lang"] == "py" and where == "pickled-model-literal" and py_pickle_key is not None:
+                # the known finding: the pickled model carries the fill state of PyDSDL's internal caches (second generate_all on the same objects)
+                ctx.count("history_py_pickled_literal")
+                ctx.fail(py_pickle_key, f"py: {rel} after the history '{f['scenario']}' (pickled model literal)", rp)
+                continue
             if model is not None:
                 ctx.disagree("history", {k: rp[k] for k in ("scenario", "lang", "file", "first_differing_line_fresh_vs_history")},
                              "equal (the output is a function of the final inputs and options)", "files differ")
@@ -433,7 +438,7 @@ def run(ctx: common.Ctx):
             ctx.fail(key, f"{m['lang']} {kind} files depend on the {m['factor']} ({where}) with auditing off: {rel} line {d[0] if d else '?'}", replay)
             ctx.sample({"differs": rel, "lang": m["lang"], "factor": m["variant"], "where": where, "line": d[0] if d else None})
     ctx.sample({"pairs": len(jobs) - len(bases), "inputs": [i[0] for i in inputs], "random_hash_seed": rnd_seed})
-    run_histories(ctx, model)
+    run_histories(ctx, model, {"lang": "py", "kind": "type", "factor": "hashseed", "where": "pickled-model-literal", "via": "history"})
 
 
 def replay(ctx, path):
